@@ -411,6 +411,32 @@ def read_items(text):
     return items, raw
 
 
+def read_raw_like_parser(text):
+    """Read the way the parser does (ford.sourceform.read_docstring): after every statement the following doc lines
+    are read, and the first line that is no doc line is handed back with pass_back().  -> every line, in order."""
+    from ford.reader import FortranReader
+    path = _tmpfile()
+    with open(path, "w", encoding="utf-8", newline="") as f:
+        f.write(text)
+    src = FortranReader(path, "!", ">", "*", "|")
+    raw = []
+    while True:
+        try:
+            line = next(src)
+        except StopIteration:
+            break
+        raw.append(line)
+        if line.startswith("!"):
+            continue
+        try:
+            while (nxt := next(src)).startswith("!!"):
+                raw.append(nxt)
+            src.pass_back(nxt)
+        except StopIteration:
+            break
+    return raw
+
+
 def classify(expect, got):
     """Signature (diff class) of the first difference."""
     for i, e in enumerate(expect):
@@ -465,4 +491,13 @@ def check(case) -> Result:
     sig, msg = classify(expect, got)
     if sig:
         res.fail(sig, f"{msg}; input={case['text']!r}; reader output={raw!r}")
+    elif ";" in case["text"]:
+        # the same lines in the same order when the reader is driven as the parser drives it (look-ahead + pass_back)
+        try:
+            raw2 = read_raw_like_parser(case["text"])
+        except Exception as e:
+            res.fail(f"lookahead-exception:{type(e).__name__}", f"{type(e).__name__}: {e} on input {case['text']!r}")
+            return res
+        if raw2 != raw:
+            res.fail("lookahead-order", f"read with look-ahead and pass_back: {raw2!r}; read straight: {raw!r}; input={case['text']!r}")
     return res
